@@ -68,11 +68,11 @@ func sharedSlow(site int32, addr uintptr, mode int) {
 		s.recordAccess(t, addr, site, true)
 	case 2:
 		s.hbAcquire(t, s.atomVC, addr)
-		s.recordAccess(t, addr, site, true)
+		s.recordAccessA(t, addr, site, true, true)
 		s.hbRelease(t, s.atomVC, addr)
 	case 3:
 		s.hbAcquire(t, s.atomVC, addr)
-		s.recordAccess(t, addr, site, false)
+		s.recordAccessA(t, addr, site, false, true)
 	}
 }
 
